@@ -2,6 +2,8 @@ package rules
 
 import (
 	"fmt"
+	"go/token"
+	"go/types"
 	"strings"
 
 	"golang.org/x/tools/go/ssa"
@@ -33,6 +35,8 @@ func checkC16(r *core.Run) {
 	ruleGenesisPairs(r, "E6-pair", "order")
 	r.Rule("T-base(latest): in Store the call is dominated by a test relating the request's base commit to meta.Commit, the model's latest version (equality or containment) — a membership test in the list of all committed versions accepts stale bases")
 	r.Rule("T-base: in Store the call is dominated by an EQUALITY between meta.Commit and the base commit taken from the request (containment admits empty or partial ids)")
+	r.Rule("T-status-forward: Order.Status is set to a value other than Completed only on an order built in this transaction or one tested Pending on every path and call chain (Complete commits a version exactly when it finds the order not Completed, so an order that falls back from Completed commits its version twice)")
+	ruleStatusForward(r, "T-status-forward")
 	r.Assume(aDeps)
 	r.Assume(aCG)
 
@@ -659,4 +663,142 @@ func rulePersisted(r *core.Run, id string, typeNames ...string) {
 	}
 	r.Discharge(id, core.Key(id, "scope"), "", fmt.Sprintf("%d functions scanned for modified-but-unpersisted local records of %v, %d found", scanned, typeNames, n))
 	r.Count("persist_functions_scanned", scanned)
+}
+
+// ruleStatusForward (T-status-forward): Complete decides "this is the first completion of the order: commit its
+// version, move its price to the market escrow" by finding Order.Status != Completed. That is sound only if a
+// Completed order never goes back: every assignment of another status to an order record must hit an order that was
+// built in this transaction (a literal), or one that a test found Pending — in the assigning function, or at every
+// call site up the chain (the record is followed through pointer parameters).
+func ruleStatusForward(r *core.Run, id string) {
+	completed := constVal(r, "order/types", "OrderCompleted")
+	pending := constVal(r, "order/types", "OrderPending")
+	atoms := []guard.Atom{guard.Eq("*"+fGetOrder+"(*)#0.Status", pending)}
+	cons := r.ConsensusFuncs()
+	var okAt func(f *ssa.Function, blk *ssa.BasicBlock, rec ssa.Value, depth int) (bool, string)
+	okAt = func(f *ssa.Function, blk *ssa.BasicBlock, rec ssa.Value, depth int) (bool, string) {
+		for _, fr := range frames(r, f) {
+			if len(fr.Chain) == 0 {
+				if ok, _ := mustPassDeep(r, f, effSite{Ins: blk.Instrs[len(blk.Instrs)-1]}, atoms); ok {
+					return true, ""
+				}
+			}
+		}
+		ck := &guard.Checker{P: r.P, Fn: f, Res: r.Resolver(f)}
+		if ok, _ := ck.MustPass(blk, atoms); ok {
+			return true, ""
+		}
+		// the record itself
+		base := rec
+		for {
+			switch x := base.(type) {
+			case *ssa.FieldAddr:
+				base = x.X
+				continue
+			case *ssa.UnOp:
+				if x.Op == token.MUL {
+					if _, isPtr := x.Type().Underlying().(*types.Pointer); !isPtr {
+						base = x.X
+						continue
+					}
+				}
+			}
+			break
+		}
+		switch x := base.(type) {
+		case *ssa.Alloc:
+			// built here: no whole value from the store is ever put into it
+			fromStore := false
+			for _, ref := range *x.Referrers() {
+				if st, ok := ref.(*ssa.Store); ok && st.Addr == ssa.Value(x) {
+					if p, isParam := st.Val.(*ssa.Parameter); isParam {
+						return okParam(r, f, p, depth, okAt, cons)
+					}
+					if strings.Contains(r.Resolver(f).Of(st.Val).String(), "GetOrder") {
+						fromStore = true
+					}
+				}
+			}
+			if !fromStore {
+				return true, ""
+			}
+			return false, "the order comes from the store and is not tested Pending in " + r.P.Name(f)
+		case *ssa.Parameter:
+			return okParam(r, f, x, depth, okAt, cons)
+		}
+		return false, "the record written cannot be traced to a fresh order or a tested one in " + r.P.Name(f)
+	}
+	n := 0
+	for _, f := range r.P.SortedFuncs(cons) {
+		if r.P.IsGenerated(f) {
+			continue
+		}
+		k := 0
+		for _, b := range f.Blocks {
+			for _, ins := range b.Instrs {
+				st, ok := ins.(*ssa.Store)
+				if !ok {
+					continue
+				}
+				fa, ok := st.Addr.(*ssa.FieldAddr)
+				if !ok || shortTypeName(fa.X.Type())+"."+fieldNameT(fa.X.Type(), fa.Field) != "order/types.Order.Status" {
+					continue
+				}
+				vt := r.Resolver(f).Of(st.Val).String()
+				if vt == completed {
+					continue
+				}
+				n++
+				k++
+				key := core.Key(id, r.KeyName(f), fmt.Sprintf("store Order.Status := %s#%d", shorten(vt), k))
+				if ok2, why := okAt(f, b, fa.X, 0); ok2 {
+					r.Discharge(id, key, r.P.Pos(st.Pos()), "the order whose status is set is built in this transaction or was tested Pending on every path / call chain")
+				} else {
+					r.Violate(id, key, r.P.Pos(st.Pos()), "Order.Status is set to a value other than Completed on an order that may already be Completed ("+why+"): Complete then treats the next shard completion as the first one — the version is committed again (history [v1 v2 v1]) and the price is deposited a second time")
+				}
+			}
+		}
+	}
+	r.Floor("order_status_assignments", n, 1)
+}
+
+func okParam(r *core.Run, f *ssa.Function, p *ssa.Parameter, depth int, okAt func(*ssa.Function, *ssa.BasicBlock, ssa.Value, int) (bool, string), cons map[*ssa.Function]bool) (bool, string) {
+	if depth >= 4 {
+		return false, "call-chain depth bound reached in " + r.P.Name(f)
+	}
+	idx := -1
+	for i, q := range f.Params {
+		if q == p {
+			idx = i
+		}
+	}
+	nSites := 0
+	for _, caller := range r.P.CG.In[f] {
+		if !cons[caller] {
+			continue
+		}
+		for _, s := range r.P.CG.Sites[caller] {
+			for _, c := range s.Callees {
+				if c != f {
+					continue
+				}
+				args := s.Instr.Common().Args
+				ai := idx
+				if s.Instr.Common().IsInvoke() {
+					ai = idx - 1
+				}
+				if ai < 0 || ai >= len(args) {
+					return false, "argument not found at " + r.P.Pos(s.Instr.Pos())
+				}
+				nSites++
+				if ok, why := okAt(caller, s.Instr.Block(), args[ai], depth+1); !ok {
+					return false, why + " (reached through " + r.P.Name(f) + " called at " + r.P.Pos(s.Instr.Pos()) + ")"
+				}
+			}
+		}
+	}
+	if nSites == 0 {
+		return false, "no caller of " + r.P.Name(f) + " found"
+	}
+	return true, ""
 }
